@@ -185,6 +185,12 @@ where
             let scheme = gets(v, "scheme");
             let msg = lib.msg::<C>(&v["msg"]);
             let sk = lib.sk::<C>(k);
+            // a refused call first, on the same thread (zero key, longer message): the judged call must not depend on it
+            {
+                let mut longer = msg.clone();
+                longer.extend_from_slice(b"-a-longer-message-signed-before");
+                let _ = SecretKey::<C>(Sc::<C>::ZERO).sign(scheme_of(scheme), &longer).is_ok();
+            }
             let r = sk.sign(scheme_of(scheme), &msg);
             let mut o = check_class(v, res_class(&r), json!({"res": res_class(&r).0, "err": res_class(&r).1}));
             if !o.ok {
@@ -249,6 +255,12 @@ where
                     let bs = wrap_sig::<C>(bl, lib.sign_pt::<C>(bk, bl, &bm));
                     let _ = bs.verify(&lib.sk::<C>(bk).public_key(), &bm).is_ok();
                 }
+            }
+            // ... and a rejected call (identity signature over a longer message under the same key)
+            {
+                let mut longer = msg.clone();
+                longer.extend_from_slice(b"-a-longer-message-verified-before");
+                let _ = wrap_sig::<C>(&label, <C as Pairing>::Signature::identity()).verify(&pk, &longer).is_ok();
             }
             let r = sig.verify(&pk, &msg);
             let got = res_class(&r);
@@ -355,6 +367,8 @@ where
             let salt = tables.salt(gets(v, "salt"));
             let l = geti(v, "l") as usize;
             let how = gets(v, "how");
+            // a longer derivation first, on the same thread
+            let _ = SecretKey::<C>::from_hash([0xa5u8; 77]).to_be_bytes();
             let (got, ikm): ([u8; 32], Vec<u8>) = match how {
                 "from_hash" => (SecretKey::<C>::from_hash(&seed).to_be_bytes(), seed.clone()),
                 "facade_from_hash" => (BlsSignature::<C>::secret_key_from_hash(&seed).to_be_bytes(), seed.clone()),
@@ -411,6 +425,8 @@ where
         "PopVerify" => {
             let pk = lib.pk::<C>(&v["pk"]);
             let (_label, pt) = lib.sig::<C>(&v["proof"]);
+            // a rejected proof first, on the same thread (another key's generator multiple)
+            let _ = ProofOfPossession::<C>(<C as Pairing>::Signature::generator()).verify(PublicKey::<C>(pk.0 + <C as Pairing>::PublicKey::generator())).is_ok();
             let r = ProofOfPossession::<C>(pt).verify(pk);
             let got = res_class(&r);
             let mut o = check_class(v, got, json!({"res": got.0, "err": got.1}));
@@ -518,6 +534,12 @@ where
             };
             let pairs: Vec<(PublicKey<C>, Vec<u8>)> =
                 geta(v, "pairs").iter().map(|p| (lib.pk::<C>(&p["pk"]), lib.msg::<C>(&p["m"]))).collect();
+            // a rejected list first, on the same thread (one more pair than was signed)
+            {
+                let mut more = pairs.clone();
+                more.push((PublicKey::<C>(<C as Pairing>::PublicKey::generator()), b"an unsigned pair, verified before".to_vec()));
+                let _ = agg.verify(&more).is_ok();
+            }
             let r = agg.verify(&pairs);
             let got = res_class(&r);
             let mut o = check_class(v, got, json!({"res": got.0, "err": got.1}));
@@ -583,6 +605,7 @@ where
             let pks: Vec<PublicKey<C>> = geta(v, "keys").iter().map(|k| lib.sk::<C>(k.as_i64().unwrap()).public_key()).collect();
             let mpk = MultiPublicKey::<C>::from_public_keys(&pks);
             let msg = lib.msg::<C>(&v["msg"]);
+            let _ = ms.verify(MultiPublicKey::<C>(mpk.0 + <C as Pairing>::PublicKey::generator()), b"another message, verified before").is_ok();
             let r = ms.verify(mpk, &msg);
             let got = res_class(&r);
             let mut o = check_class(v, got, json!({"res": got.0, "err": got.1}));
